@@ -1,4 +1,4 @@
-(* RtProgress.v — C02 for the linear connective fragment in asynchronous mode.
+(* RtProgress.v — C02 (every form; asynchronous mode first, synchronous mode at the end of the file).
    In a typed configuration that satisfies Topo and is quiescent:
      (1) every remaining process is blocked in a receive on ITS OWN provider channel, of negative
          type, whose buffer is empty and open: it is poised, waiting for a client — nobody is blocked
